@@ -10,7 +10,7 @@
    newest-wins fold; [live_entries live s seek] are its entries with key >= seek
    whose value is live.  [Ok] in the conclusions also says: no index panic, no
    "not found" error, and every fuel bound of the model suffices. *)
-From GV Require Import Lib.Tactics PathDB.Iter PathDB.IterProofs PathDB.IterFast PathDB.IterBinary.
+From GV Require Import Lib.Tactics PathDB.Iter PathDB.IterProofs PathDB.IterFast PathDB.IterBinary PathDB.IterHist PathDB.IterHistProofs.
 From Coq Require Import Sorted.
 
 (* the fast (priority-merge) iterator, for any number of layers, any contents,
@@ -70,6 +70,43 @@ Theorem C22_sort_search_brackets : forall n (f : nat -> option bool),
 Proof. exact sort_search_spec. Qed.
 Print Assumptions C22_sort_search_brackets.
 
+(* states.go: the cached sorted key lists (accountListSorted / storageListSorted)
+   of a state set, as explicit state with the invalidation rules of the code:
+   after ANY history of accountList / storageList / merge / revertTo / clearLists
+   (merge arguments being maps) the set is still well formed, every cached list
+   equals the sorted keys of the CURRENT contents, and so do the lists handed to
+   the iterators *)
+Theorem C22_cache_invariant : forall (ops : list sop) (s s' : sset),
+  ss_wf s -> cache_ok s -> Forall sop_wf ops -> ss_run s ops = Some s' ->
+  ss_wf s' /\ cache_ok s' /\
+  fst (ss_account_list s') = key_list (s_acc s') /\
+  forall a, fst (ss_storage_list a s') = key_list (sget a (s_stor s')).
+Proof. exact cache_invariant. Qed.
+Print Assumptions C22_cache_invariant.
+
+(* the invalidation in merge is needed: keeping the lists unless the merge adds a
+   new account or a storage map of an untracked account (i.e. also when it only
+   adds slot keys to a tracked account) breaks the invariant *)
+Theorem C22_lazy_merge_breaks_cache :
+  exists s other, ss_wf s /\ cache_ok s /\ ss_wf other /\ ~ cache_ok (ss_merge_lazy s other).
+Proof. exact lazy_merge_breaks_cache. Qed.
+Print Assumptions C22_lazy_merge_breaks_cache.
+
+(* database histories (Update / Commit / cap into the buffer or flushed /
+   iterate, in any order and number, from the empty database): an iteration of
+   either kind taken at ANY point, at the head or [skip] layers below it, for
+   accounts or for one account's storage, returns exactly the live entries of
+   the stack of state sets under the iterated layer — the lists it is fed come
+   from the caches filled by earlier iterations and merged into since *)
+Theorem C22_history_iter_exact : forall (zero_limit : bool) (pre : list hop) kind acct seek skip,
+  Forall hop_wf pre ->
+  let h := fst (h_run zero_limit h_empty pre) in
+  snd (h_step zero_limit h (HIter kind acct seek skip)) =
+  Some (Ok (live_entries live_nonnil (h_view h kind acct skip) seek),
+        Ok (live_entries live_nonempty (h_view h kind acct skip) seek)).
+Proof. exact history_iter_exact. Qed.
+Print Assumptions C22_history_iter_exact.
+
 (* non-vacuity: a 4-set stack with a tombstone shadowing older entries, an empty
    buffer, clashes on every key; hypotheses hold and the iterators return the
    expected lists *)
@@ -82,9 +119,29 @@ Example C22_nonvacuous :
   wf_stack s1 /\ s1 <> [] /\ canonical s1 /\
   fast_iter s1 1%N = Ok [(1, [1]); (2, [5]); (4, [4])]%N /\
   binary_iter s1 1%N = Ok [(1, [1]); (2, [5]); (4, [4])]%N /\
-  live_entries live_nonnil s1 0%N = [(0, [9]); (1, [1]); (2, [5]); (4, [4])]%N.
+  live_entries live_nonnil s1 0%N = [(0, [9]); (1, [1]); (2, [5]); (4, [4])]%N /\
+  (* a history: iterate account 170's storage, merge a layer that adds slot 2 to
+     the tracked account into the unflushed buffer, iterate again *)
+  let ops : list hop :=
+    [ HUpdate [(170, Some [1])] [(170, [(1, Some [1]); (3, Some [3])])];
+      HUpdate [(187, Some [2])] []; HCap 1;
+      HUpdate [(170, Some [4])] [(170, [(2, Some [2])])];
+      HUpdate [(187, Some [5])] []; HIter 1 170 0 0; HCap 1 ]%N in
+  Forall hop_wf ops /\
+  snd (h_run false h_empty (ops ++ [HIter 1 170 0 0; HIter 1 170 2 1]))%N =
+    [ (Ok [(1, [1]); (2, [2]); (3, [3])], Ok [(1, [1]); (2, [2]); (3, [3])]);
+      (Ok [(1, [1]); (2, [2]); (3, [3])], Ok [(1, [1]); (2, [2]); (3, [3])]);
+      (Ok [(2, [2]); (3, [3])], Ok [(2, [2]); (3, [3])]) ]%N.
 Proof.
-  cbv zeta. split; [|split; [discriminate|split; [|vm_compute; auto]]].
+  cbv zeta. split; [|split; [discriminate|split; [|split; [vm_compute; auto|split; [vm_compute; auto|split; [vm_compute; auto|]]]]]].
   - repeat (constructor; try reflexivity).
   - repeat (constructor; try discriminate).
+  - split; [|vm_compute; reflexivity].
+    assert (Hup : forall acc stor, lsorted acc -> (forall a, lsorted (sget a stor)) ->
+                  NoDup (map fst stor) -> hop_wf (HUpdate acc stor)).
+    { intros acc stor H1 H2 H3. cbn. unfold ss_wf. cbn. auto. }
+    repeat (apply Forall_cons; [first [exact I | apply Hup]|]); try apply Forall_nil;
+      try (repeat (constructor; try reflexivity); fail);
+      try (intros a; cbn; destruct (N.eqb a 170); repeat (constructor; try reflexivity); fail);
+      try (cbn; repeat constructor; cbn; tauto).
 Qed.
